@@ -176,6 +176,31 @@ def gen_constraints(rng, oname, allow_lax=False, arg_elem=None):
     return tuple(cons), lax
 
 
+ENABLE_CONTAINS = False  # switched on by C01 only (other checks keep their constraint vocabulary)
+CONTAINS_POOL = {
+    "int": [(("ge", 3),), (("const", 1),), (("multiple_of", 5),), (("lt", 0),), (("enum", (1, 2, 10)),)],
+    "str": [(("max_length", 1),), (("regex", r"\d+"),), (("const", "a"),), (("min_length", 3),)],
+}
+
+
+def gen_contains(rng, o):
+    """constrained sequence with contains / min_contains / max_contains; the contains type is a strict constrained
+    type over the element origin, so for an element that conforms to the element type 'matches' <=> constraints hold"""
+    eo = rng.choice(["int", "int", "str"])
+    cons = [("contains", ("con", eo, rng.choice(CONTAINS_POOL[eo]), (), ()))]
+    r = rng.random()
+    if r < 0.35:
+        cons.append(("max_contains", rng.choice([1, 2, 3])))
+    elif r < 0.6:
+        cons.append(("min_contains", rng.choice([1, 2, 3])))
+    elif r < 0.75:
+        lo = rng.choice([1, 2])
+        cons += [("min_contains", lo), ("max_contains", lo + rng.choice([0, 1, 2]))]
+    if rng.random() < 0.25:
+        cons.append(("max_length", rng.choice([3, 4, 5])))
+    return ("con", o, tuple(cons), (), (("leaf", eo),))
+
+
 def gen_scalar(rng, p_con=0.45, allow_lax=False, pool=COMMON_SCALARS):
     o = rng.choice(pool)
     if rng.random() < p_con and o in ("int", "float", "str", "Decimal", "bytes", "date", "datetime"):
@@ -208,6 +233,8 @@ def gen_spec(rng, depth=2, allow_lax=False, abstract=False, logic=True, hashable
     if r < 0.7:
         # constrained container
         o = rng.choice(["list", "tuple", "set", "deque"])
+        if ENABLE_CONTAINS and rng.random() < 0.4:
+            return gen_contains(rng, o)
         cons, lax = gen_constraints(rng, o, allow_lax)
         elem = gen_spec(rng, 0, allow_lax, hashable=True)
         if cons:
@@ -308,6 +335,8 @@ class Builder:
             for cname, b in cons:
                 if cname == "enum":
                     b = list(b)
+                if cname == "contains":
+                    b = self.annotation(b)
                 cd[cname] = Lax(b) if cname in lax else b
             argts = tuple(self.annotation(a) for a in args)
             route = self._route(["class", "annotate", "annotate"]) if origin is not bool else "annotate"
@@ -563,7 +592,17 @@ def _gen_container_input(rng, kind, args, depth, cons):
         for name in ("length", "max_length", "min_length"):
             if name in cd:
                 n = max(0, cd[name] + rng.choice([-1, 0, 0, 1]))
+        if "contains" in cd:
+            n = rng.choice([0, 1, 2, 3, 4, 5])
+            if "max_length" in cd and rng.random() < 0.8:
+                n = min(n, cd["max_length"])
         items = [gen_input(rng, args[0], depth + 1) for _ in range(n)]
+        if "contains" in cd:
+            # aim at the thresholds: elements that match / do not match the contains type
+            sub = gen_input
+            for j in range(len(items)):
+                if rng.random() < 0.6:
+                    items[j] = sub(rng, cd["contains"], depth + 1)
         if "unique_items" in cd and items and rng.random() < 0.4:
             items.append(items[0])
     shape = rng.choice(["list", "list", "list", "tuple", "set", "deque", "iter", "gen", "str", "frozenset", "dkeys"])
@@ -642,8 +681,23 @@ def _conforms(value, spec, built_dc=None, path="$"):
             r = _conforms_items(value, args[0], built_dc, path)
             if r:
                 return r
+        cdict = dict(cons)
         for cname, b in cons:
             if cname in lax:
+                continue
+            if cname in ("contains", "min_contains", "max_contains"):
+                # items were judged against the element type above: for a conforming element, matching the contains type
+                # (a strict constrained type over the same origin) <=> its constraints hold
+                n = 0
+                for it in value:
+                    try:
+                        n += _conforms(it, cdict["contains"], built_dc, path) is None
+                    except Unjudged:
+                        raise
+                ok = n >= 1 if cname == "contains" else (n >= b if cname == "min_contains" else n <= b)
+                if not ok:
+                    return ("constraint:" + cname, f"{path}: {V_short(value)} has {n} element(s) matching {describe(cdict['contains'])}, violating {cname}"
+                            + ("" if cname == "contains" else f"={b!r}"))
                 continue
             h = CR.holds(cname, b, value)
             if h is None:
